@@ -30,6 +30,10 @@ type Case struct {
 	Raw     []string `json:"raw,omitempty"`    // verbatim header lines (totality sweep); when set, Lines is ignored
 	Offers  []string `json:"offers"`           // offers (via=handler: the operation's produces list)
 	Default string   `json:"default"`          // default offer (via=handler: the API default media type); "" = none
+	// via=history: Seq is executed in order in one process (handler steps on one shared API
+	// instance per configuration); every step must give what it gives when run alone.
+	Seq  []Case `json:"seq,omitempty"`
+	Salt int    `json:"salt,omitempty"` // the range s<Salt>/s (coding s<Salt>), which matches no offer, is appended to every header of Seq
 }
 
 var (
